@@ -136,3 +136,12 @@ package lightning
 //@   calls (lnrpc.LightningClient).AddInvoice asserts @amount [C02,C03] amount < 9223372036854775808 ==> in.Value == amount
 //@   calls (lnrpc.LightningClient).AddInvoice asserts @negative [C02,C03] amount >= 9223372036854775808 ==> in.Value < 0
 //@   ensures @labelled [C02,C03] r1 == nil ==> r0.Amount == amount
+
+// ---- the invoice watcher's source (C03): a subscription reports "settled" exactly from the node's own state
+//@ func (*LndInvoiceSub).Recv
+//@   tags C03
+//@   ensures @settled [C03] r1 == nil ==> (r0.Settled <==> invoiceRes.State == lnrpc.Invoice_SETTLED) && r0.PaymentHash == lndSub.paymentHash
+
+//@ func (*CLNInvoiceSub).Recv
+//@   tags C03
+//@   ensures @settled [C03] r1 == nil ==> (r0.Settled <==> response.Status == "paid")
